@@ -18,7 +18,7 @@ def disassemble(blobs):
         f.write(buf)
         path = f.name
     try:
-        out = subprocess.run(['objdump', '-D', '-b', 'binary', '-m', 'i386', '-M', 'intel', '--no-show-raw-insn', path],
+        out = subprocess.run(['objdump', '-D', '-z', '-b', 'binary', '-m', 'i386', '-M', 'intel', '--no-show-raw-insn', path],
                              capture_output=True, text=True).stdout
     finally:
         os.unlink(path)
@@ -203,8 +203,11 @@ def parse_insn(text, who):
     return tuple(pfx), mn, ops
 
 
-def canon(text, who, addr=None, length=None, opsize16=False):
+def canon(text, who, addr=None, length=None, opsize16=False, dup_size=False):
     pfx, mn, ops = parse_insn(text, who)
+    if dup_size:
+        # the input repeats an operand- / address-size prefix: objdump names the repeat 'data16' / 'addr16'; it is the same instruction
+        pfx = tuple(p for p in pfx if p not in ('data16', 'addr16', 'data32', 'addr32'))
     if who == 'objdump' and mn in ('ljmp', 'lcall', 'jmp', 'call') and ops and ops[0][0] == 'far':
         pass
     if any(p in SUPERFLUOUS for p in pfx):
